@@ -483,17 +483,21 @@ fn format_directive<'entry>(
 
         FormatDirective::Path {
             strip_starting_point,
-        } => file_info
-            .path()
-            .strip_prefix(if *strip_starting_point {
-                get_starting_point(file_info)
+        } => {
+            if *strip_starting_point {
+                file_info
+                    .path()
+                    .strip_prefix(get_starting_point(file_info))
+                    // safe to unwrap: the prefix is derived *from* the path to begin
+                    // with, so it cannot be invalid.
+                    .unwrap()
+                    .to_string_lossy()
             } else {
-                Path::new("")
-            })
-            // safe to unwrap: the prefix is derived *from* the path to begin
-            // with, so it cannot be invalid.
-            .unwrap()
-            .to_string_lossy(),
+                // exactly what -print prints (strip_prefix("") would normalise the
+                // path, dropping the trailing slash of a starting point like `d/`)
+                file_info.path().to_string_lossy()
+            }
+        }
 
         FormatDirective::Permissions(PermissionsFormat::Symbolic) => {
             uucore::fs::display_permissions(meta()?, true).into()
